@@ -344,6 +344,16 @@ def main():
     # 4. cases
     rng = random.Random(seed * 1000003 + 17)
     cases = load_corpus(pid.lower()) + list(fam.gen_cases(rng, tier))
+    if tier == "thorough":
+        # the thorough tier explores three independent PRNG streams (the exhaustive small scopes of a family are
+        # the same in each; duplicates are dropped by content)
+        seen = {"\n".join(c["lines"]) for c in cases}
+        for extra in (1, 2):
+            r2 = random.Random((seed + 7919 * extra) * 1000003 + 17)
+            for c in fam.gen_cases(r2, tier):
+                k = "\n".join(c["lines"])
+                if k not in seen:
+                    seen.add(k); c["id"] = f"{c['id']}~s{extra}"; cases.append(c)
     ids = set()
     for i, c in enumerate(cases):
         if c["id"] in ids: c["id"] = f"{c['id']}_{i}"
